@@ -1,0 +1,71 @@
+//go:build verif
+
+package smtp_downstream
+
+import (
+	"fmt"
+	"sync"
+
+	"github.com/foxcpp/maddy/framework/exterrors"
+	"github.com/foxcpp/maddy/framework/module"
+)
+
+// Trace hooks of the verification harness (/verif, property C09), compiled only with the build
+// tag "verif" and silent unless VerifTraceSink is set: the result of every AddRcpt (address
+// exactly as given) and every status handed to the StatusCollector during BodyNonAtomic.
+
+// VerifTraceSink receives the events (key = delivery object + message ID).
+var VerifTraceSink func(ev map[string]interface{})
+
+var (
+	verifMu  sync.Mutex
+	verifSeq int
+)
+
+func verifClass(err error) string {
+	switch {
+	case err == nil:
+		return "ok"
+	case exterrors.IsTemporary(err):
+		return "temp"
+	}
+	return "perm"
+}
+
+func verifEmit(d *delivery, e string, f map[string]interface{}) {
+	if VerifTraceSink == nil {
+		return
+	}
+	verifMu.Lock()
+	defer verifMu.Unlock()
+	verifSeq++
+	ev := map[string]interface{}{"key": fmt.Sprintf("%s/%p/%s", d.u.modName, d, d.msgMeta.ID), "seq": verifSeq, "e": e}
+	for k, v := range f {
+		ev[k] = v
+	}
+	VerifTraceSink(ev)
+}
+
+func verifRcpt(d *delivery, to string, err error) {
+	verifEmit(d, "HRcpt", map[string]interface{}{"to": to, "res": verifClass(err)})
+}
+
+type verifStatus struct {
+	d     *delivery
+	inner module.StatusCollector
+}
+
+func (s verifStatus) SetStatus(rcptTo string, err error) {
+	verifEmit(s.d, "HStatus", map[string]interface{}{"to": rcptTo, "res": verifClass(err)})
+	s.inner.SetStatus(rcptTo, err)
+}
+
+func verifBody(d *delivery, sc module.StatusCollector) module.StatusCollector {
+	if VerifTraceSink == nil {
+		return sc
+	}
+	verifEmit(d, "HBody", map[string]interface{}{"lmtp": d.u.lmtp})
+	return verifStatus{d: d, inner: sc}
+}
+
+func verifBodyDone(d *delivery) { verifEmit(d, "HBodyDone", nil) }
